@@ -458,8 +458,8 @@ def replay_store_tf(obligation=None, model=None, meta=None):
     logging.getLogger('andes').setLevel(logging.CRITICAL)
     n = 0
     # kundur_wtdta1: the drive-train integrators take their time constants from constant services (2 Ht, 2 Hg), which exist only after
-    # the models' services have been evaluated
-    for case in ('kundur/kundur_full.xlsx', 'ieee14/ieee14_full.xlsx', 'kundur/kundur_wtdta1.xlsx'):
+    # the models' services have been evaluated; ieee14_wt3n: five REECA1 whose filter blocks carry a literal (scalar) time constant 0.02
+    for case in ('kundur/kundur_full.xlsx', 'ieee14/ieee14_full.xlsx', 'kundur/kundur_wtdta1.xlsx', 'ieee14/ieee14_wt3n.xlsx'):
         n += 1
         with contextlib.redirect_stdout(io.StringIO()), contextlib.redirect_stderr(io.StringIO()):
             ss = andes.load(andes.get_case(case), default_config=True, no_output=True)
